@@ -54,6 +54,10 @@ func instreamDissolvedNutrient(incomingMassUpstream, incomingMassLateral, reachV
 	doDecay, pointSourceLoad, linkHeight, linkWidth, linkLength, uptakeVelocity, durationInSeconds float64,
 	decayedLoad, loadDownstream, loadToFloodplain, loadFromPointSource data.ND1Float64) float64 {
 	n := incomingMassUpstream.Len1()
+	if n == 0 {
+		// an empty period: the stored mass stays stored
+		return storedMass
+	}
 	idx := []int{0}
 	prevVolume := reachVolume.Get(idx)
 
